@@ -21,7 +21,8 @@ QUICK_BUDGET_S = 900
 # property -> extraction items whose translation its theorems are stated about
 TRANSLATED = {'C17': ('calendar_src', 'extract_calendar', 'calendar.py'), 'C18': ('query_chain', 'extract_query'),
               'C03': ('schedule_src', 'extract_schedule'), 'C04': ('schedule_src', 'extract_schedule', 'pass_src', 'extract_pass'),
-              'C08': ('schedule_src', 'extract_schedule', 'pass_src', 'extract_pass'), 'C09': ('schedule_src', 'extract_schedule'),
+              'C08': ('schedule_src', 'extract_schedule', 'pass_src', 'extract_pass'),
+              'C09': ('schedule_src', 'extract_schedule', 'pass_src', 'extract_pass'),
               'C02': ('pass_src', 'extract_pass'), 'C07': ('pass_src', 'extract_pass')}
 
 
